@@ -26,6 +26,8 @@ import (
 	"time"
 )
 
+import "github.com/codenotary/immudb/embedded/verifhook"
+
 // OngoingTx (no-thread safe) represents an interactive or incremental transaction with support of RYOW.
 // The snapshot may be locally modified but isolated from other transactions
 type OngoingTx struct {
@@ -786,6 +788,7 @@ func (tx *OngoingTx) hasPreconditions() bool {
 }
 
 func (tx *OngoingTx) checkPreconditions(ctx context.Context, st *ImmuStore) error {
+	verifhook.Point("store.checkPreconditions")
 	for _, c := range tx.preconditions {
 		if c == nil {
 			return ErrInvalidPreconditionNull
